@@ -31,6 +31,7 @@ EXPLANATION = (
     ' (23) RUNPOS: every (value, length) run written by hand into a canvas (ProgressBar.render -> _attr / _cs) has a length that the dominating tests show positive - linear atoms from the tests, entailment of L > 0 (fix 31a962b: [(complete, 0), (normal, maxcol)] made content() yield an empty row).'
     ' (24) MEMO: a hand-written dict memo (if K in self.D: return self.D[K] ... self.D[K] = v) whose value depends on a module global that a setter rebinds has such a global in its key (fix 39ac3d2: Font.render cached glyph canvases by character alone although their bytes come from apply_target_encoding()).'
     ' Round 6: (25) SIB: the rows cut off below the focus (max(E, 0)) and the rows free below it (-E) in ListBox.calculate_visible are computed from the same state; (26) BOUND: BarGraph width lists built as [w] * n are bounded by the available columns.'
+    ' (27) POSBOUND: a get_cursor_coords() that rejects its computed column beyond the right edge also rejects a negative one (shared with C09.17; fix 2daba5c: clip + right alignment gave the cursor (-4, 0)).'
 )
 NOT_DECIDED = (
     "That composed canvases actually have the requested size for all trees/sizes/texts (value semantics of shards, layout and padding); truthfulness of sizing(); wide-character column "
@@ -489,6 +490,12 @@ def rule_complementary_quantities(ctx: Ctx) -> RuleResult:
     return rr
 
 
+def _two_sided(ctx: Ctx) -> RuleResult:
+    from . import c09
+
+    return c09.rule_two_sided(ctx, "C01.27")
+
+
 def rule_repeat_bound(ctx: Ctx) -> RuleResult:
     """BarGraph.calculate_bar_widths() answers with a list of bar widths whose sum must not exceed the columns it was
     given (the display rows are built from it and rendered as Text at exactly maxcol).  A result of the form
@@ -598,6 +605,7 @@ def run(ctx: Ctx):
         rule_inverse_percent(ctx),
         rule_complementary_quantities(ctx),
         rule_repeat_bound(ctx),
+        _two_sided(ctx),
         runpos.run_runpos(ctx.p, "C01.23", ("urwid.widget",), floor=7),
         memo.run_dict_memo(ctx.p, "C01.24", ("urwid",), floor=1),
     ]
